@@ -294,7 +294,8 @@ Lemma ae_commit_log okr s8 tr8 fs8 a s' r tr fs' :
   ae_commit okr s8 tr8 fs8 a = Done s' r tr fs' -> d_log s' = d_log s8 /\ r = okr.
 Proof.
   unfold ae_commit. destruct ((0 <? aq_commit a) && (v_commit s8 <? aq_commit a)).
-  - match goal with |- context [process_logs ?S ?I] => destruct (process_logs S I) as [[s11 tra]|] eqn:EP end; [|discriminate].
+  - cbv zeta. destruct (v_commit s8 <? _); [|intros H; inversion H; subst; auto].
+    match goal with |- context [process_logs ?S ?I] => destruct (process_logs S I) as [[s11 tra]|] eqn:EP end; [|discriminate].
     intros H; inversion H; subst. apply process_logs_log in EP. rewrite EP.
     split; [destruct (v_latestIdx _ <=? _); reflexivity|reflexivity].
   - intros H; inversion H; subst. auto.
